@@ -291,6 +291,19 @@ def opRobust (nargs : Nat) (ws : List String) : String :=
       | none => "bad-op"
     else "returned"
 
+/-- `robust_name W NAME`: the suffix dispatch returns for every name -/
+def opRobustName (ws : List String) : String :=
+  match ws with
+  | [w, name] =>
+    match int? w with
+    | some w =>
+      if w < 0 ∨ 2 < w ∨ name.length > 40 then "bad-op"
+      else if !name.toList.all (fun c => c.isLower || c.isDigit || c == '.' || c == '_') then "bad-op"
+      else if !name.startsWith "hcn_" then "bad-op"
+      else "returned"
+    | none => "bad-op"
+  | _ => "bad-op"
+
 def step (_ : Unit) (line : String) : Unit × String :=
   let r : String := match words line with
     | "write_meshb" :: ws => opWriteMeshb false ws
@@ -307,6 +320,7 @@ def step (_ : Unit) (line : String) : Unit × String :=
     | "robust_translate" :: ws => opRobust 1 ws
     | "robust_solb" :: ws => opRobust 2 ws
     | "robust_metric" :: ws => opRobust 2 ws
+    | "robust_name" :: ws => opRobustName ws
     | _ => "bad-op"
   ((), r)
 
